@@ -16,7 +16,6 @@ structure St where
   tree : KsBytes.Tree := fun _ => []               -- the keystore bucket tree, written by the byte-level writers (MW.Model.KsBytes)
   treeOk : Bool := true                            -- no byte-level writer has failed
   bits : AMap.T String Nat := []                   -- entropy identity ↦ entropy bits
-  shape : AMap.T String TxLoc.Shape := []          -- transaction name ↦ what decides its encoded length (block-file offsets)
   deriving Inhabited
 
 def init : St := {}
@@ -80,34 +79,6 @@ def clsOf : Ledger.Cls → Sign.Class
   | .bindOld _ => .bind
   | .bindNew _ => .bind
   | .raw => .other
-
-/-- script length of an output as the harness builds it (wenv.go buildOut): OP_0 <32-byte hash> [<8-byte frozen period> |
-    <20- or 22-byte target>], or the raw bytes -/
-def outShape (spec : String) : Option (Nat × Nat) :=
-  match spec.splitOn ":" with
-  | [_, m] => m.toNat?.map (fun n => (n, 34))
-  | ["raw", m, h] => m.toNat?.map (fun n => (n, if h = "-" then 0 else h.length / 2))
-  | [_, m, "stk", _] => m.toNat?.map (fun n => (n, 43))
-  | [_, m, "bind", _] => m.toNat?.map (fun n => (n, 55))
-  | [_, m, "bind22", _] => m.toNat?.map (fun n => (n, 57))
-  | [_, m, "bindbad", _] => m.toNat?.map (fun n => (n, 57))
-  | _ => none
-
-/-- the shape of a transaction defined by `tx NAME UNIQ INS OUTS` (wenv.go DefineTx: version 1, no witnesses, lock time 0,
-    payload = 8 bytes ‖ NAME) -/
-def shapeOf (name ins outs : String) : Option TxLoc.Shape :=
-  let is : Option (Option (List (Nat × Nat))) :=
-    if ins = "cb" then some none
-    else ((Led.parseList ins).mapM (fun s => (Led.parseIn s).map (fun i => (i.idx, i.seq)))).map some
-  match is, (Led.parseList outs).mapM outShape with
-  | some is, some os => some { ins := is, outs := os, payload := 8 + name.utf8ByteSize }
-  | _, _ => none
-
-/-- encoded length of a defined transaction -/
-def lenOf (shape : AMap.T String TxLoc.Shape) (t : Ledger.Tx) : Nat :=
-  match AMap.get shape t.id with
-  | some s => s.dbLen
-  | none => 0
 
 open Ledger in
 /-- existsMsgTx / existsUnminedTx / index check / existsOutPoint of signWitnessTx, on the ledger model; `len` = encoded
@@ -413,7 +384,7 @@ def step (st : St) (args : List String) : St × String :=
         | none => (st, withSpec "err:flag" sp)
         | some fl =>
           -- SignRawTx ends with ClearPrivKey: every keystore is locked again
-          let res := (Sign.signTx symEngine (envOf st.led (lenOf st.shape) w r.pass) (Sign.Lock.locked symCrypto) p fl (toSignTx tx)).2
+          let res := (Sign.signTx symEngine (envOf st.led (Led.lenOf st.led.shape) w r.pass) (Sign.Lock.locked symCrypto) p fl (toSignTx tx)).2
           let ks := { st.ks with wal := Secrets.clearAll st.ks.wal }
           let m := match res with | .ok _ => "ok" | .error e => errTok e
           ({ st with ks := ks }, withSpec m sp)
@@ -425,19 +396,16 @@ def step (st : St) (args : List String) : St × String :=
       | [] => true
     if (Led.parseList outs).any unknown then (st, "err") else
     let (l, o) := Led.step st.led args
-    let shape := match args, o with
-      | ["tx", t, _, ins, outs], "ok" => (match shapeOf t ins outs with | some s => AMap.put st.shape t s | none => st.shape)
-      | _, _ => st.shape
-    ({ st with led := l, shape := shape }, o)
+    ({ st with led := l }, o)
   | ["txlock", t, lock, pl] =>
     -- lock time and payload are covered by the signature hash only: no effect on the signing model (they change the
     -- encoded length: payload = the given bytes ‖ NAME)
     match AMap.get st.led.txs t, lock.toNat? with
     | some _, some lk =>
-      let shape := match AMap.get st.shape t with
-        | some s => AMap.put st.shape t { s with lock := lk, payload := (if pl = "-" then 0 else pl.length / 2) + t.utf8ByteSize }
-        | none => st.shape
-      ({ st with shape := shape }, "ok")
+      let shape := match AMap.get st.led.shape t with
+        | some s => AMap.put st.led.shape t { s with lock := lk, payload := (if pl = "-" then 0 else pl.length / 2) + t.utf8ByteSize }
+        | none => st.led.shape
+      ({ st with led := { st.led with shape := shape } }, "ok")
     | _, _ => (st, "bad-op")
   | "autosign" :: _ => (st, "pass\tpass")
   | _ =>
